@@ -173,17 +173,24 @@ func main() {
 		return
 	}
 	segAlphabet := []string{root, root + "er", "sea", "api"}
+	maxSeg := 3
+	if a.Thorough() {
+		// more ways to resemble the root name, one more level
+		segAlphabet = append(segAlphabet, root+"-v2", "x"+root, strings.ToUpper(root))
+		maxSeg = 4
+	}
 	var ctxs [][]string
-	ctxs = append(ctxs, nil)
-	for _, x := range segAlphabet {
-		ctxs = append(ctxs, []string{x})
-		for _, y := range segAlphabet {
-			ctxs = append(ctxs, []string{x, y})
-			for _, z := range segAlphabet {
-				ctxs = append(ctxs, []string{x, y, z})
-			}
+	var gen func(cur []string)
+	gen = func(cur []string) {
+		ctxs = append(ctxs, append([]string{}, cur...))
+		if len(cur) == maxSeg {
+			return
+		}
+		for _, x := range segAlphabet {
+			gen(append(cur, x))
 		}
 	}
+	gen(nil)
 	keys := []string{"a", "%25", "%2F", ".", "..", "a%2F..%2Fb", ";", "a;b", "%3F", "%23", "''", "(a:b)", "!*", "%28x%29", "a%20b", "+", "%C3%A9", "$", "a=b&c", "%2E%2E"}
 	var paths []string
 	paths = append(paths, "/"+root)
@@ -200,6 +207,9 @@ func main() {
 	queries := []qq{{"", false}, {"a=b", true}, {"q=x&ids=List(1,2)", true}, {"%25", true}, {"+", true}, {"a=%2F..", true}, {"q=%3F%23", true}, {"x=a+b", true}, {"p=(a:b)", true}, {"", true}}
 	type sh struct{ scheme, host string }
 	hosts := []sh{{"http", "h"}, {"https", "h"}, {"http", "h:8080"}, {"https", "h:8080"}, {"", ""}}
+	if a.Thorough() {
+		hosts = append(hosts, sh{"http", "[::1]:8080"}, sh{"https", "xn--bcher-kva.example"}, sh{"http", "10.0.0.1"})
+	}
 	s := rep.S("url-construction")
 	s.Bounds = fmt.Sprintf("bases: %d scheme/host x %d context paths (0-3 segments over %v) x trailing slash; %d resource paths (keys %v); %d queries; NewGetRequest and NewJsonRequest", len(hosts), len(ctxs), segAlphabet, len(paths), keys, len(queries))
 	item := 0
